@@ -35,6 +35,7 @@ type vlStep struct {
 	Q string `json:"q,omitempty"`
 	K string `json:"k,omitempty"`
 	V string `json:"v,omitempty"`
+	N int    `json:"n,omitempty"`
 }
 
 type vlSched struct {
